@@ -696,13 +696,20 @@ Proof.
   destruct (ti =? Z.of_nat (length types)); eexists; reflexivity.
 Qed.
 
-Lemma equiv_total types i1 i2 :
+Lemma equiv_total abbrs types i1 i2 : Forall (abbr_ok abbrs) types ->
   0 <= i1 < Z.of_nat (length types) -> 0 <= i2 < Z.of_nat (length types) ->
-  exists b, equiv_transitions types i1 i2 = OK b.
+  exists b, equiv_transitions abbrs types i1 i2 = OK b.
 Proof.
-  intros H1 H2. unfold equiv_transitions. destruct (i1 =? i2); [eexists; reflexivity|].
+  intros Fa H1 H2. unfold equiv_transitions. destruct (i1 =? i2); [eexists; reflexivity|].
   destruct (nth_res_ok types i1 H1) as [t1 E1]. destruct (nth_res_ok types i2 H2) as [t2 E2].
-  rewrite E1, E2. cbn [bind]. eexists; reflexivity.
+  rewrite E1, E2. cbn [bind].
+  destruct (negb (tt_off t1 =? tt_off t2)); [eexists; reflexivity|].
+  destruct (negb (Bool.eqb (tt_isdst t1) (tt_isdst t2))); [eexists; reflexivity|].
+  destruct (tt_abbr t1 =? tt_abbr t2); [eexists; reflexivity|].
+  rewrite Forall_forall in Fa.
+  destruct (cstr_from_ok abbrs (tt_abbr t1) (Fa _ (proj1 (nth_res_inv _ _ _ E1)))) as [a1 ->].
+  destruct (cstr_from_ok abbrs (tt_abbr t2) (Fa _ (proj1 (nth_res_inv _ _ _ E2)))) as [a2 ->].
+  cbn [bind]. eexists; reflexivity.
 Qed.
 
 Lemma all_year_dst_total p : pt_ok (dst_start p) -> pt_ok (dst_end p) ->
@@ -750,7 +757,7 @@ Proof.
   assert (TL : 0 <= tr_type last < Z.of_nat (length types)).
   { apply last_opt_In in EL. rewrite Forall_forall in Ftr. exact (proj2 (Ftr _ EL)). }
   destruct (dst_abbr p) as [|dc dr] eqn:ED.
-  { destruct (equiv_total types1 (tr_type last) std_ti ltac:(lia) I1) as [b Eb].
+  { destruct (equiv_total abbrs1 types1 (tr_type last) std_ti A1 ltac:(lia) I1) as [b Eb].
     rewrite Eb. cbn [bind]. destruct b; eexists; reflexivity. }
   destruct D as [Dn | (dof & Edo & Hdo & P1 & P2)]; [discriminate|].
   rewrite Edo. cbn [get_opt bind].
@@ -760,7 +767,7 @@ Proof.
   specialize (F2 F1). specialize (A2 A1).
   destruct (all_year_dst_total p P1 P2 ltac:(eauto) ltac:(eauto)) as [ay Eay]. rewrite Eay. cbn [bind].
   destruct ay.
-  { destruct (equiv_total types2 (tr_type last) dst_ti ltac:(lia) I2) as [b Eb].
+  { destruct (equiv_total abbrs2 types2 (tr_type last) dst_ti A2 ltac:(lia) I2) as [b Eb].
     rewrite Eb. cbn [bind]. destruct b; eexists; reflexivity. }
   destruct (nth_res_ok types2 (tr_type last) ltac:(lia)) as [ltt Eltt]. rewrite Eltt. cbn [bind].
   destruct (nth_res_inv _ _ _ Eltt) as [Inl _].
